@@ -71,6 +71,40 @@ def small_histories(L):
                "gen": "small family, ops %s" % (list(seq),)}
 
 
+# ---- line-ending-only edits: the same lines with LF, CRLF and lone CR (byte offsets, hence every range, differ)
+EOL_A = [("inc", "b.td"), ("raw", "class A : B;"), ("raw", "def d : Missing;")]
+EOL_B = [("raw", "class B;"), ("raw", "def e : AlsoMissing;")]
+EOL_OPS = [("a.td", H.build_text(EOL_A, eol)) for eol in ("\n", "\r\n", "\r")] + \
+          [("b.td", H.build_text(EOL_B, eol)) for eol in ("\n", "\r\n")]
+EOL_DISK = [["a.td", EOL_OPS[1][1]], ["b.td", EOL_OPS[3][1]]]
+
+
+def eol_histories(L):
+    for seq in itertools.product(range(len(EOL_OPS)), repeat=L):
+        yield {"mode": "memfs", "files": EOL_DISK, "include_dir": None, "full": True,
+               "history": [["touch", EOL_OPS[i][0], EOL_OPS[i][1]] for i in seq],
+               "gen": "line-ending family (LF / CRLF / CR of the same lines), ops %s" % (list(seq),)}
+
+
+# ---- large workspaces: FileIds persist across root switches, so a small root can hold files with large ids
+def big_history(n, late, back):
+    files = [["i%03d.td" % i, H.build_text([("decl", "K%03d" % i)])] for i in range(n)]
+    big = H.build_text([("inc", "i%03d.td" % i) for i in range(n)] + [("raw", "class Big : K%03d;" % (n - 1))])
+    small = H.build_text([("inc", "i%03d.td" % i) for i in late] + [("raw", "class Small%d : K%03d;" % (k, i)) for k, i in enumerate(late)])
+    hist = [["touch", "big.td", big], ["touch", "small.td", small]]
+    if back:
+        hist += [["touch", "big.td", big], ["touch", "small.td", small]]
+    return {"mode": "memfs", "files": files, "include_dir": None, "full": True, "history": hist,
+            "gen": "large workspace: %d includes, then a small root including %s" % (n, late)}
+
+
+def big_histories(quick):
+    out = [big_history(70, [69], False), big_history(85, [84, 66, 3], False), big_history(100, [99, 64], True)]
+    if not quick:
+        out += [big_history(130, [129, 128, 65], True), big_history(200, [199, 150, 70, 1], False)]
+    return out
+
+
 def rand_text(rng, i, n):
     v = rng.randint(0, 2)
     parts = [("decl", "C%d_%d" % (i, v))]
@@ -122,6 +156,8 @@ def random_history(rng, quick):
 def gen_cases(ctx):
     L = 3 if ctx.quick else 4
     cases = list(small_histories(L))
+    cases += list(eol_histories(3 if ctx.quick else 4))
+    cases += big_histories(ctx.quick)
     nsmall = len(cases)
     nrand = 250 if ctx.quick else 2500
     for _ in range(nrand):
@@ -268,7 +304,9 @@ def run(ctx):
         "fresh_hosts_started": stats["fresh_hosts"],
         "distinct_nontrivial": len(stats["nontrivial"]),
         "rule": "every history of length %d over {a.td, b.td} x 4-5 texts each (include added / removed / retargeted on the same range, cycle with root-order dependent diagnostics, "
-                "root switches, one text common to both documents; c.td only on disk) = %d histories, plus %d random histories (2..%d touches over 2..5 files, 3 texts per file: "
+                "root switches, one text common to both documents; c.td only on disk), every history of that length over line-ending-only variants "
+                "(LF / CRLF / CR of the same lines, root and opened included document), large workspaces (70..100 includes, then root switches to small "
+                "files including late ones: FileIds persist) = %d histories, plus %d random histories (2..%d touches over 2..5 files, 3 texts per file: "
                 "includes nested in blocks, missing targets, INCLUDE_DIR, semantic references across files, syntax errors); "
                 "EVERY step of every history is compared with a fresh host; non-trivial = distinct history prefix whose last step changed the root, "
                 "the file set or an include map" % (L, nsmall, nrand, 6 if ctx.quick else 10),
